@@ -79,6 +79,69 @@ def run(ctx):
                     return f
         return None
 
+    # ---- curved paths (quadratics, cubics, arcs incl. steeply rotated ellipses): Go's Windings/Crossings/Contains judged against the
+    # winding number of an independent dense sampling, at query points whose exact distance to the sampling is >= 2^-7 ----
+    CFLAGS = {4: "prop:Windings!=winding-number(curved)", 8: "prop:Contains!=Fills(wn)(curved)", 16: "prop:Crossings!=crossing-number(curved)", 64: "prop:panic(curved)"}
+    ncurve = ctx.n(80, 2500)
+    cargs = ["-seed", str(ctx.seed), "-n", str(ncurve), "-mode", "curve"]
+    fargs = ["-seed", str(ctx.seed), "-n", str(ctx.n(200, 6000)), "-mode", "fill"]
+    if ctx.replay:
+        rp = json.load(open(ctx.replay))
+        one = ["-seed", str(rp.get("seed", ctx.seed)), "-n", str(rp.get("index", 0) + 1), "-only", str(rp.get("index", 0))]
+        cargs, fargs = one + ["-mode", "curve"], one + ["-mode", "fill"]
+    rc2, ccases, err2 = vlib.harness_cases("c06", cargs)
+    crows = vlib.coq_eval_shards("c06c-%d" % ctx.seed, HEADER, [c["coq"] for c in ccases], shard=4, wrap="judge_curve")
+    curve_fail, ncq, ncskip = [], 0, 0
+    for c, row in zip(ccases, crows):
+        for k in range(len(row) // 2):
+            fl, cls = row[2 * k], row[2 * k + 1]
+            if cls == 9:
+                ncskip += 1
+                if not fl:
+                    continue
+            ncq += 1
+            # a ray at the level of the top/bottom of the bounds is numerically tangent to the curve: the crossing count may be
+            # 0 or 2 there (curve vs. sampling), only its parity is judged
+            if c["desc"]["why"][k].startswith("tangent-at-"):
+                fl = (fl & ~16) | (16 if fl & 2048 else 0)
+            fl &= ~2048
+            for b, name in CFLAGS.items():
+                if fl & b:
+                    flagcount[name] = flagcount.get(name, 0) + 1
+            if fl:
+                curve_fail.append((c, k, fl))
+    rest = curve_fail
+    rest.sort(key=lambda t: len(t[0]["desc"]["path"]))
+    for c, k, fl in rest[:3]:
+        ctx.violation(dict(kind="property-fails-on-implementation", seed=ctx.seed, index=c["i"], mode="curve", family=c["fam"], path=c["desc"]["path"],
+                           go=c["desc"]["go"][k], why=c["desc"]["why"][k], flags=[n for b, n in CFLAGS.items() if fl & b]),
+                      "%s on %s: %s" % (",".join(n for b, n in CFLAGS.items() if fl & b), c["desc"]["path"], c["desc"]["go"][k]))
+    # ---- CCW and Filling on simple, mutually non-touching contours (polygons and curved contours incl. cusps at the right-most point) ----
+    rc3, fcases, err3 = vlib.harness_cases("c06", fargs)
+    fpanic = [c for c in fcases if not c["coq"]]
+    fcases = [c for c in fcases if c["coq"]]
+    frows = vlib.coq_eval_shards("c06f-%d" % ctx.seed, HEADER, [c["coq"] for c in fcases], shard=40, wrap="judge_fill")
+    FFLAGS = {256: "prop:CCW!=sign-of-area", 512: "prop:Filling!=Fills(wn-at-interior-witness)"}
+    fill_fail, nfill, nfskip = [], 0, 0
+    for c, row in zip(fcases, frows):
+        if row[1] == 9:
+            nfskip += 1
+            continue
+        nfill += 1
+        for b, name in FFLAGS.items():
+            if row[0] & b:
+                flagcount[name] = flagcount.get(name, 0) + 1
+        if row[0]:
+            fill_fail.append((c, row[0]))
+    fill_fail.sort(key=lambda t: len(t[0]["desc"]["path"]))
+    for c, fl in fill_fail[:3]:
+        ctx.violation(dict(kind="property-fails-on-implementation", seed=ctx.seed, index=c["i"], mode="fill", family=c["fam"], path=c["desc"]["path"],
+                           go_ccw=c["desc"].get("go_ccw"), go_filling=c["desc"].get("go_filling"), flags=[n for b, n in FFLAGS.items() if fl & b]),
+                      "%s on %s" % (",".join(n for b, n in FFLAGS.items() if fl & b), c["desc"]["path"]))
+    for c in fpanic[:2]:
+        ctx.violation(dict(kind="property-fails-on-implementation", seed=ctx.seed, index=c["i"], mode="fill", path=c["desc"]["path"], panic=c["desc"].get("panic")),
+                      "CCW/Filling panic on %s" % c["desc"]["path"])
+
     reported_known = set()
     new_prop = []
     for c, k, fl in prop_fail:
@@ -108,7 +171,10 @@ def run(ctx):
                                             "model written by hand: Geom/Winding.v (tied by the differential run below, not proved against Go source)"]),
         evaluations=nq, distinct_nontrivial=len(nontrivial), distinct=len(distinct),
         rule="one evaluation = one (path, query point) pair run through Go's Windings/Crossings/Contains/RayIntersections and through the Coq model and spec; distinct by (path string, query); non-trivial: the ray meets the path (the model produces at least one intersection record); the class histogram says how many rays are level with a vertex or start on the boundary",
-        programs=len(cases), disagreements_checked=len(prop_fail) + len(tie_fail),
+        programs=len(cases), disagreements_checked=len(prop_fail) + len(tie_fail) + len(curve_fail) + len(fill_fail),
+        curved_paths=len(ccases), curved_queries_judged=ncq, curved_queries_skipped_close_to_curve=ncskip,
+        ccw_filling_paths_judged=nfill, ccw_filling_paths_skipped_not_simple_or_bad_witness=nfskip,
+        curved_families=vlib.histogram([c["fam"] for c in ccases]), fill_families=vlib.histogram([c["fam"] for c in fcases]),
         traces_validated_against_impl=nq,
         query_classes=dict(generic=classes.get(0, 0), vertex_level=classes.get(1, 0), on_boundary=classes.get(2, 0)),
         families=fams, flag_counts=flagcount,
@@ -117,4 +183,5 @@ def run(ctx):
     )
     return ctx.finish("proof", cov, [
         "coordinates on a power-of-two grid so that every Epsilon comparison in the Go code is decided exactly as in the integer model",
-        "curved segments are not in the model"])
+        "curved segments are not in the model: Go's answers on curved paths are judged against the winding number of a dense sampling (192 points per segment) at points at least 2^-7 from it",
+        "CCW/Filling: judged on simple non-touching contours only (signed area; winding number at a checked interior witness)"])
